@@ -281,11 +281,19 @@ func (p *Program) provablyEnteredLoopExit(fn *ssa.Function, a, b *ssa.BasicBlock
 	}
 	iff := a.Instrs[len(a.Instrs)-1]
 	for _, df := range dominatingFacts(iff) {
-		if df.Op != token.NEQ || df.Y == nil {
+		if df.Y == nil {
 			continue
 		}
-		for _, pair := range [][2]ssa.Value{{df.X, df.Y}, {df.Y, df.X}} {
-			if k, isK := constInt(pair[1]); isK && k == 0 && sameLocationLoad(fn, pair[0], f.Y) {
+		// recv.F != 0, recv.F > 0, recv.F >= k (k >= 1), also with the operands swapped
+		k, isK := constInt(df.Y)
+		if isK && sameLocationLoad(fn, df.X, f.Y) {
+			if (df.Op == token.NEQ && k == 0) || (df.Op == token.GTR && k >= 0) || (df.Op == token.GEQ && k >= 1) {
+				return true
+			}
+		}
+		k2, isK2 := constInt(df.X)
+		if isK2 && sameLocationLoad(fn, df.Y, f.Y) {
+			if (df.Op == token.NEQ && k2 == 0) || (df.Op == token.LSS && k2 >= 0) || (df.Op == token.LEQ && k2 >= 1) {
 				return true
 			}
 		}
